@@ -12,7 +12,7 @@ run_one() {
   neutral=$(/venv/bin/python -c "import json; m=json.load(open('$d/meta.json')); print(m.get('neutralised_by',{}).get('commit',''))" 2>/dev/null)
   if [ -n "$neutral" ]; then
     need=$(/venv/bin/python -c "import json,sys; m=json.load(open('$d/meta.json')); print(m['needs_to_manifest'].splitlines()[0][:110].replace('|','/'))" 2>/dev/null)
-    echo "| $id | $need | $prop | NEUTRALISED by fix $neutral (no longer breaks the property; was CAUGHT before) |  |"; return
+    echo "| $id | $need | $prop | NEUTRALISED by fix $neutral (no longer breaks the property; see meta.json) |  |"; return
   fi
   for chk in $prop $others; do
     res=$(MUT_TIER=quick tools/mutant.sh $d/patch.diff $chk 2>&1 | grep -E "^(CAUGHT|MISSED|PATCH-FAILED)" | head -1)
